@@ -1,4 +1,5 @@
 import KV.Proofs.CsSyncNet
+import KV.Proofs.CsOld
 /-!
 # C04 (part) — a synchronous round with a correct proposer decides
 
@@ -37,16 +38,25 @@ the state machine's logic decides as soon as one round is synchronous:
   ones included, reach every correct node) releases those locks ("Unlocking because of POL") and
   establishes `RoundReady`; then the synchronous round decides.
 * How many rounds (`unlucky_rounds_bounded`): "at most two consecutive synchronous rounds with
-  correct proposers" is FALSE for this code (`two_sync_rounds_not_enough_counterexample`: a failed
-  synchronous round without a polka changes no lock; the decisive round is the one of the proposer
-  whose valid round is at least every conflicting lock round).  Worse, a STALE LOCK
-  (`stale_lock_livelock_counterexample`: a node that skipped the prevote step of a round whose
-  polka it holds keeps its older lock for ever) blocks the height although 75 % of the power is
-  correct, connected and synchronous and every correct validator proposes in turn — a
-  model-level counterexample to the bounded-rounds clause of C04, to be confirmed on real nodes.
-  `unluckyRoundsBoundedStatement` (the claim with the dominating proposer) is kept as a definition
-  and refuted by it (`unluckyRoundsBoundedStatement_false`); `decidableFromEverywhereStatement`
-  is the full logic-core statement, not proved.
+  correct proposers" is FALSE (`two_sync_rounds_not_enough_counterexample`: a failed synchronous
+  round without a polka changes no lock; the decisive round is the one of the proposer whose valid
+  round is at least every conflicting lock round).  `unlucky_rounds_bounded` (=
+  `unluckyRoundsBoundedStatement`, PROVED): at a reachable boundary whose correct proposer's valid
+  round dominates (`Dominated`), `PolReady` holds for the proposer's polka set, hence POL gossip and
+  ONE synchronous round decide (`pol_round_decides`); it rests on `NoStale` (F36) and on the
+  single-node invariants `Cs.Aux` (`KV/Proofs/CsAux.lean`: a valid block carries its polka, the vote
+  sets of the rounds up to the current one exist, a proposer has signed its valid block).  The
+  number of rounds until such a proposer's turn is a matter of the rotation (C12), not formalised.
+* F36, the stale lock: before the fix a node that round-skipped past the prevote step of a round
+  whose polka it held kept its older lock for ever and blocked the height although 75 % of the
+  power was correct, connected and synchronous (`stale_lock_livelock_counterexample_old_rule`, about
+  `stepOld` of `KV/Proofs/CsOld.lean`; confirmed on real nodes).  The node model now releases such
+  a lock when it enters a round (`Cs.releaseStale`): `stale_lock_released`,
+  `stale_lock_released_decides` (the same inputs: the lock is released at the first skip and the
+  round of the dominating proposer decides), and `C03.stale_lock_never_persists` /
+  `C01Cs.stale_lock_never_persists_network` (`NoStale` is an invariant), which `pol_gossip_ready`
+  uses: a lock from a round before the POL round cannot coexist with the polka of the POL round.
+  `decidableFromEverywhereStatement` is the full logic-core statement, not proved.
 
 The proof is by induction over the deliveries (`KV/Proofs/CsSyncRun.lean`): the vote-set tally of
 a node crosses +2/3 at some delivery; before it nothing fires, at it the node precommits /
@@ -397,8 +407,7 @@ def NodePreReady (cfg : Config) (h r pol b : Nat) (qs : List Nat) (σ : State) :
   σ.halted = false ∧ σ.height = h ∧ σ.round = r ∧ σ.step = .propose ∧
   σ.proposal = none ∧ σ.pblock = none ∧ σ.parts = none ∧
   (1 ≤ pol ∧ pol < r) ∧
-  ((σ.locked = none ∨ idIs σ.locked b = true) ∨
-    (σ.lockedRound < pol ∧ isMaj cfg.powers (σ.slots .prevote h pol) (some b) = false)) ∧
+  (σ.locked = none ∨ idIs σ.locked b = true ∨ σ.lockedRound < pol) ∧
   (∀ q ∈ qs, (σ.slots .prevote h pol)[q]? = some none ∨ (σ.slots .prevote h pol)[q]? = some (some (some b))) ∧
   σ.slots .prevote h r = List.replicate (n cfg) none ∧
   σ.slots .precommit h r = List.replicate (n cfg) none
@@ -425,7 +434,7 @@ instance (N : Net) (g : GState) (h r p pol b : Nat) (qs : List Nat) : Decidable 
   unfold PolReady CorrectQuorum; exact inferInstance
 
 theorem NodePreReady.pre {cfg : Config} {h r pol b : Nat} {qs : List Nat} {σ : State} (I : Inv cfg σ)
-    (R : NodePreReady cfg h r pol b qs σ) : PreReady cfg h r pol b σ := by
+    (NS : NoStale cfg σ) (R : NodePreReady cfg h r pol b qs σ) : PreReady cfg h r pol b σ := by
   obtain ⟨nh, hh, hr, st, prop, pb, parts, polr, lk, _, pv, pc⟩ := R
   have lkb : idIs σ.locked b = true → σ.locked = some ⟨b, true⟩ := by
     intro lk
@@ -440,20 +449,31 @@ theorem NodePreReady.pre {cfg : Config} {h r pol b : Nat} {qs : List Nat} {σ : 
       rw [hid, hok]
     · cases lk
   refine ⟨nh, hh, hr, st, prop, pb, parts, polr, fun blk hb => (I.lk blk hb).1, ?_, ?_, pv, pc⟩
-  · rcases lk with (lk | lk) | lk
+  · rcases lk with lk | lk | lk
     · exact Or.inl (Or.inl lk)
     · exact Or.inl (Or.inr (lkb lk))
-    · exact Or.inr lk.1
+    · exact Or.inr lk
   · intro hm
-    rcases lk with (lk | lk) | lk
+    rcases lk with lk | lk | lk
     · exact Or.inl lk
     · exact Or.inr (lkb lk)
-    · rw [← State.slots_eq, lk.2] at hm; cases hm
+    · -- no stale lock: a lock from a round before `pol` cannot coexist with the polka of `pol`
+      cases hl : σ.locked with
+      | none => exact Or.inl rfl
+      | some lb =>
+        right
+        have := NS lb hl pol (some b) lk (by omega) (by rw [hh]; exact maj23_of_isMaj hm)
+        have hid : lb.id = b := (Option.some.inj this).symm
+        have hok := (I.lk lb hl).1
+        obtain ⟨id, ok⟩ := lb
+        simp only at hid hok
+        rw [hid, hok]
 
 /-- **pol_gossip_ready.** After the POL prevotes reached every correct node the network is at the
 round boundary `RoundReady`: every correct node holds the polka of round `pol` for `b`, and every
 lock on another block (all from rounds `< pol`) is released. -/
-theorem pol_gossip_ready (N : Net) (wf : N.WF) (g : GState) (G : GInv N g) (h r p pol b : Nat) (qs : List Nat)
+theorem pol_gossip_ready (N : Net) (wf : N.WF) (g : GState) (G : GInv N g)
+    (hNS : ∀ i, NoStale (N.cfg i) (g.st i)) (h r p pol b : Nat) (qs : List Nat)
     (R : PolReady N g h r p pol b qs) :
     GOkS N g (polGossip N h pol b qs) ∧ RoundReady N (grun N g (polGossip N h pol b qs)) h r p pol b := by
   obtain ⟨hq, hp, hFp, hprop, hqs, hpow, hnode⟩ := R
@@ -484,7 +504,7 @@ theorem pol_gossip_ready (N : Net) (wf : N.WF) (g : GState) (G : GInv N g) (h r 
     obtain ⟨hpi, hnr⟩ := hnode i hi hF
     refine ⟨hpi, ?_⟩
     rw [hst, if_pos hic]
-    have P := hnr.pre (G.inv i)
+    have P := hnr.pre (G.inv i) (hNS i)
     have hslots : ∀ q ∈ qs, q < n (N.cfg i) ∧
         ((slotsV (g.st i).votes .prevote h pol)[q]? = some none ∨
          (slotsV (g.st i).votes .prevote h pol)[q]? = some (some (some b))) := fun q hqm =>
@@ -503,12 +523,13 @@ re-proposes its valid block `b` with POL round `pol`, and every correct node's l
 from a round before `pol` (the proposer's valid round is at least every conflicting lock round —
 the condition under which Tendermint's liveness argument goes through), every correct node commits
 `b`. -/
-theorem pol_round_decides (N : Net) (wf : N.WF) (g : GState) (G : GInv N g) (h r p pol b : Nat) (qs : List Nat)
+theorem pol_round_decides (N : Net) (wf : N.WF) (g : GState) (G : GInv N g)
+    (hNS : ∀ i, NoStale (N.cfg i) (g.st i)) (h r p pol b : Nat) (qs : List Nat)
     (R : PolReady N g h r p pol b qs) :
     GOkS N g (polGossip N h pol b qs ++ syncRoundP N h r p pol b) ∧
     ∀ i, i < N.powers.length → N.F i = false →
       Action.commit h b ∈ ((grun N g (polGossip N h pol b qs ++ syncRoundP N h r p pol b)).st i).log := by
-  obtain ⟨ok0, R'⟩ := pol_gossip_ready N wf g G h r p pol b qs R
+  obtain ⟨ok0, R'⟩ := pol_gossip_ready N wf g G hNS h r p pol b qs R
   have G0 := grun_inv_s wf _ _ G ok0
   obtain ⟨ok1, hc⟩ := sync_round_decides N wf _ G0 h r p pol b R'
   refine ⟨(goks_append N _ _ _).mpr ⟨ok0, ok1⟩, fun i hi hF => ?_⟩
@@ -727,7 +748,10 @@ theorem unlucky_round5_decides :
   have G3 := grun_inv_s wf _ _ (gstart_inv N4u) c.2.2.1
   have G4 := grun_inv_s wf _ _ G3 c.2.2.2.1
   have G5 := grun_inv_s wf _ _ G4 c.2.2.2.2.1
-  exact (pol_round_decides N4u wf gU5 G5 1 5 0 2 9 [0, 2, 3]
+  have N3 := grun_noStale_s wf _ _ (gstart_inv N4u) (gstart_noStale N4u) c.2.2.1
+  have N4 := grun_noStale_s wf _ _ G3 N3 c.2.2.2.1
+  have N5 := grun_noStale_s wf _ _ G4 N4 c.2.2.2.2.1
+  exact (pol_round_decides N4u wf gU5 G5 N5 1 5 0 2 9 [0, 2, 3]
     c.2.2.2.2.2.2.2.2.2.2.2.2.2.2.2.2.2.2.2.2.2.2).2
 
 set_option maxRecDepth 100000 in
@@ -735,16 +759,18 @@ set_option maxRecDepth 100000 in
 example : allCommit N4u (grun N4u gU5 (polGossip N4u 1 2 9 [0, 2, 3] ++ syncRoundP N4u 1 5 0 2 9)) 1 9 := by
   decide
 
-/-! ### a stale lock: synchronous rounds with every correct proposer in turn, and no decision
+/-! ### F36, the stale lock: the old rule livelocks, the repaired node releases the lock
 
-`addVote` releases a lock only while handling a prevote that is ADDED, for a polka of a round in
-`(LockedRound, Round]` ("If vote.Round > cs.Round, we'll deal with it when we get to vote.Round").
-A node that receives the polka of round 2 while it is still in round 1, skips to round 2
-(+2/3 any) and skips on to round 3 (+2/3 any again) before its own round-2 timers fire never
-"gets to" round 2's prevote step: it keeps the lock of round 1 although it holds a later polka for
-another block, and no further round-2 prevote can be added to release it (all other slots are
-full, it will never sign a round-2 prevote itself).  If its power is needed for +2/3 the height
-cannot be decided any more. -/
+Before the F36 fix `consensus/state.go` released a lock only in `addVote`, while handling a prevote
+that is ADDED, for a polka of a round in `(LockedRound, Round]` ("If vote.Round > cs.Round, we'll
+deal with it when we get to vote.Round").  A node that receives the polka of round 2 while it is
+still in round 1, skips to round 2 (+2/3 any) and skips on to round 3 (+2/3 any again) before its
+own round-2 timers fire never "got to" round 2's prevote step: it kept the lock of round 1 although
+it held a later polka for another block, and no further round-2 prevote could be added to release
+it.  If its power was needed for +2/3 the height could not be decided any more (confirmed on real
+nodes: finding F36).  The fix (`Cs.releaseStale` in `enterNewRound`) re-evaluates the unlock test
+for the rounds in `(lockedRound, round]` whenever a round is entered.  The old rule is kept as
+`stepOld` (`KV/Proofs/CsOld.lean`) for the regression theorem below. -/
 
 /-- A = 0, B = 1, C = 2 correct, D = 3 Byzantine (votes with the others, precommits nil in round
 2 although it saw the polka, forwards B's and C's votes to A, then stays silent).  Proposers of
@@ -777,7 +803,8 @@ def stalePrefix : List GStep :=
   toNode 0 [pvx 1 2 (some 9), pvx 2 2 (some 9), pvx 3 2 (some 9),
             pvx 1 3 (some 9), pvx 2 3 (some 9), pvx 3 3 none]
 
-/-- the rest of round 3; from here on everything is synchronous and D is silent -/
+/-- the rest of round 3 under the OLD rule (A, still locked, prevotes 8); from here on everything
+is synchronous and D is silent -/
 def staleRound3 : List GStep :=
   toNode 0 [tmo 3 .propose] ++
   phase [0, 1, 2] (fun _ => [pvx 0 3 (some 8), pvx 1 3 (some 9), pvx 2 3 (some 9), tmo 3 .prevoteWait]) ++
@@ -792,54 +819,107 @@ def staleRound (r p pol b : Nat) (qs : List Nat) : List GStep :=
   phase [0, 1, 2] (fun _ => [pvx 0 r (some 8), pvx 1 r (some 9), pvx 2 r (some 9), tmo r .prevoteWait]) ++
   phase [0, 1, 2] (fun _ => [pcx 0 r none, pcx 1 r none, pcx 2 r none, tmo r .precommitWait])
 
-def gD3 : GState := grun N4d (gstart N4d) stalePrefix
-def gD4 : GState := grun N4d gD3 staleRound3
-def gD5 : GState := grun N4d gD4 (staleRound 4 0 1 8 [0, 1, 2])
-def gD6 : GState := grun N4d gD5 (staleRound 5 1 2 9 [1, 2, 3])
-def gD7 : GState := grun N4d gD6 (staleRound 6 2 2 9 [1, 2, 3])
+/-- the states of the execution under the OLD rule -/
+def gO3 : GState := grunOld N4d (gstart N4d) stalePrefix
+def gO4 : GState := grunOld N4d gO3 staleRound3
+def gO5 : GState := grunOld N4d gO4 (staleRound 4 0 1 8 [0, 1, 2])
+def gO6 : GState := grunOld N4d gO5 (staleRound 5 1 2 9 [1, 2, 3])
+def gO7 : GState := grunOld N4d gO6 (staleRound 6 2 2 9 [1, 2, 3])
 
 set_option maxRecDepth 100000 in
-/-- **A stale lock blocks the height (model-level counterexample to the bounded-rounds clause of
-C04).**  Legal execution (`GOkS`), 1 of 4 validators Byzantine.  After `stalePrefix` A is at
-(1, 3, Propose) locked on 8 since round 1 and HOLDS the polka of round 2 for 9 (its own round-2
-slot empty: it skipped that round); B and C are locked on 9 since round 2.  From then on the three
-correct validators (75 % of the power) are connected and every round is fully synchronous:
-rounds 3 – 6, with EACH correct validator proposing once (A re-proposes 8 with POL 1 in round 4,
-B re-proposes 9 with POL 2 in round 5, C the same in round 6), POL prevotes gossiped.  Nobody
-commits; at the boundaries of rounds 4, 5, 6 and 7 the (lock, valid) views are identical: the
-execution can be repeated forever.  `PolReady` fails in rounds 5 and 6 exactly because of the
-stale lock (A holds the polka of the POL round but is still locked on another block). -/
-theorem stale_lock_livelock_counterexample :
+/-- **Regression: the OLD rule livelocks (F36).**  Legal execution of the network of `stepOld` nodes
+(`GOkSOld`), 1 of 4 validators Byzantine.  After `stalePrefix` A is at (1, 3, Propose) locked on 8
+since round 1 and HOLDS the polka of round 2 for 9 (its own round-2 slot empty: it skipped that
+round); B and C are locked on 9 since round 2.  From then on the three correct validators (75 % of
+the power) are connected and every round is fully synchronous: rounds 3 – 6, with EACH correct
+validator proposing once (A re-proposes 8 with POL 1 in round 4, B re-proposes 9 with POL 2 in round
+5, C the same in round 6), POL prevotes gossiped.  Nobody commits; at the boundaries of rounds 4, 5,
+6 and 7 the (lock, valid) views are identical: the execution can be repeated forever.  A's state
+violates `NoStale`. -/
+theorem stale_lock_livelock_counterexample_old_rule :
     N4d.WF ∧ CorrectQuorum N4d ∧
     3 * power (valsOf N4d.powers) (pwOf N4d.powers) N4d.F < power (valsOf N4d.powers) (pwOf N4d.powers) (fun _ => true) ∧
-    GOkS N4d (gstart N4d) stalePrefix ∧ GOkS N4d gD3 staleRound3 ∧
-    GOkS N4d gD4 (staleRound 4 0 1 8 [0, 1, 2]) ∧ GOkS N4d gD5 (staleRound 5 1 2 9 [1, 2, 3]) ∧
-    GOkS N4d gD6 (staleRound 6 2 2 9 [1, 2, 3]) ∧
+    GOkSOld N4d (gstart N4d) stalePrefix ∧ GOkSOld N4d gO3 staleRound3 ∧
+    GOkSOld N4d gO4 (staleRound 4 0 1 8 [0, 1, 2]) ∧ GOkSOld N4d gO5 (staleRound 5 1 2 9 [1, 2, 3]) ∧
+    GOkSOld N4d gO6 (staleRound 6 2 2 9 [1, 2, 3]) ∧
     -- the stale lock: A locked (8, round 1), holds +2/3 prevotes for 9 of round 2, own slot empty
-    lockView (gD3.st 0) = (some 8, 1, some 8, 1, 3, .propose) ∧
-    isMaj N4d.powers ((gD3.st 0).slots .prevote 1 2) (some 9) = true ∧
-    ((gD3.st 0).slots .prevote 1 2)[0]? = some none ∧
+    lockView (gO3.st 0) = (some 8, 1, some 8, 1, 3, .propose) ∧
+    isMaj N4d.powers ((gO3.st 0).slots .prevote 1 2) (some 9) = true ∧
+    ((gO3.st 0).slots .prevote 1 2)[0]? = some none ∧
     -- the (lock, valid) views at the boundaries of rounds 4, 5, 6, 7
-    (lockView (gD4.st 0) = (some 8, 1, some 8, 1, 4, .propose) ∧ lockView (gD4.st 1) = (some 9, 2, some 9, 2, 4, .propose) ∧
-      lockView (gD4.st 2) = (some 9, 2, some 9, 2, 4, .propose)) ∧
-    (lockView (gD5.st 0) = (some 8, 1, some 8, 1, 5, .propose) ∧ lockView (gD5.st 1) = (some 9, 2, some 9, 2, 5, .propose) ∧
-      lockView (gD5.st 2) = (some 9, 2, some 9, 2, 5, .propose)) ∧
-    (lockView (gD6.st 0) = (some 8, 1, some 8, 1, 6, .propose) ∧ lockView (gD6.st 1) = (some 9, 2, some 9, 2, 6, .propose) ∧
-      lockView (gD6.st 2) = (some 9, 2, some 9, 2, 6, .propose)) ∧
-    (lockView (gD7.st 0) = (some 8, 1, some 8, 1, 7, .propose) ∧ lockView (gD7.st 1) = (some 9, 2, some 9, 2, 7, .propose) ∧
-      lockView (gD7.st 2) = (some 9, 2, some 9, 2, 7, .propose)) ∧
+    (lockView (gO4.st 0) = (some 8, 1, some 8, 1, 4, .propose) ∧ lockView (gO4.st 1) = (some 9, 2, some 9, 2, 4, .propose) ∧
+      lockView (gO4.st 2) = (some 9, 2, some 9, 2, 4, .propose)) ∧
+    (lockView (gO5.st 0) = (some 8, 1, some 8, 1, 5, .propose) ∧ lockView (gO5.st 1) = (some 9, 2, some 9, 2, 5, .propose) ∧
+      lockView (gO5.st 2) = (some 9, 2, some 9, 2, 5, .propose)) ∧
+    (lockView (gO6.st 0) = (some 8, 1, some 8, 1, 6, .propose) ∧ lockView (gO6.st 1) = (some 9, 2, some 9, 2, 6, .propose) ∧
+      lockView (gO6.st 2) = (some 9, 2, some 9, 2, 6, .propose)) ∧
+    (lockView (gO7.st 0) = (some 8, 1, some 8, 1, 7, .propose) ∧ lockView (gO7.st 1) = (some 9, 2, some 9, 2, 7, .propose) ∧
+      lockView (gO7.st 2) = (some 9, 2, some 9, 2, 7, .propose)) ∧
     -- every correct validator proposed once (its valid block, with its valid round as POL round)
-    Action.signProposal 1 4 1 8 ∈ (gD7.st 0).log ∧ Action.signProposal 1 5 2 9 ∈ (gD7.st 1).log ∧
-    Action.signProposal 1 6 2 9 ∈ (gD7.st 2).log ∧
+    Action.signProposal 1 4 1 8 ∈ (gO7.st 0).log ∧ Action.signProposal 1 5 2 9 ∈ (gO7.st 1).log ∧
+    Action.signProposal 1 6 2 9 ∈ (gO7.st 2).log ∧
     -- nobody committed
-    noCommit (gD7.st 0).log = true ∧ noCommit (gD7.st 1).log = true ∧ noCommit (gD7.st 2).log = true ∧
-    -- the hypothesis of `pol_round_decides` fails (only) for the stale lock
-    ¬ PolReady N4d gD5 1 5 1 2 9 [1, 2, 3] ∧ ¬ PolReady N4d gD6 1 6 2 2 9 [1, 2, 3] :=
+    noCommit (gO7.st 0).log = true ∧ noCommit (gO7.st 1).log = true ∧ noCommit (gO7.st 2).log = true :=
   ⟨⟨fun _ => rfl, fun _ => rfl⟩, by decide, by decide, by decide, by decide, by decide, by decide, by decide,
     by decide, by decide, by decide,
     ⟨by decide, by decide, by decide⟩, ⟨by decide, by decide, by decide⟩, ⟨by decide, by decide, by decide⟩,
     ⟨by decide, by decide, by decide⟩,
-    by decide, by decide, by decide, by decide, by decide, by decide, by decide, by decide⟩
+    by decide, by decide, by decide, by decide, by decide, by decide⟩
+
+/-- the state the old rule reaches violates the invariant `NoStale` that the repaired node keeps
+(`C03.stale_lock_never_persists`) -/
+theorem old_rule_violates_noStale : ¬ NoStale (N4d.cfg 0) (gO3.st 0) := by
+  intro h
+  have := h ⟨8, true⟩ (by decide) 2 (some 9) (by decide) (by decide) (by decide)
+  exact absurd this (by decide)
+
+/-- the rest of round 3 for the repaired node: A, unlocked and without a proposal, prevotes nil -/
+def fixedRound3 : List GStep :=
+  toNode 0 [tmo 3 .propose] ++
+  phase [0, 1, 2] (fun _ => [pvx 0 3 none, pvx 1 3 (some 9), pvx 2 3 (some 9), tmo 3 .prevoteWait]) ++
+  phase [0, 1, 2] (fun _ => [pcx 0 3 none, pcx 1 3 none, pcx 2 3 none, tmo 3 .precommitWait])
+
+/-- the states of the execution of the repaired nodes -/
+def gF2 : GState := grun N4d (gstart N4d) (stalePrefix.take (stalePrefix.length - 3))
+def gF3 : GState := grun N4d (gstart N4d) stalePrefix
+def gF4 : GState := grun N4d gF3 fixedRound3
+def gF5 : GState := grun N4d gF4 (staleRound 4 0 1 8 [0, 1, 2])
+
+set_option maxRecDepth 100000 in
+/-- **stale_lock_released.** The same inputs, handled by the repaired node (`Cs.step`): when the
+third round-2 prevote makes A skip to round 2, `releaseStale` finds the polka (round 2, block 9) in
+`(lockedRound = 1, round = 2]` and releases the lock on 8; A enters round 3 unlocked (it keeps 8 as
+its valid block).  The executions stay legal (`GOkS`).  Round 3 (no proposer) and round 4 (A
+re-proposes 8 with POL 1; B and C are locked on 9 since round 2) fail, and round 5 — B, whose valid
+round 2 dominates, re-proposes 9 with POL 2 — is `RoundReady`. -/
+theorem stale_lock_released :
+    GOkS N4d (gstart N4d) stalePrefix ∧
+    -- before the skip: locked (8, round 1), in round 1; after the first skip: released, in round 2
+    lockView ((grun N4d (gstart N4d) (stalePrefix.take (stalePrefix.length - 4))).st 0) =
+      (some 8, 1, some 8, 1, 1, .precommit) ∧
+    lockView (gF2.st 0) = (none, 0, some 8, 1, 2, .propose) ∧
+    -- after the second skip: round 3, unlocked; B, C locked on 9
+    lockView (gF3.st 0) = (none, 0, some 8, 1, 3, .propose) ∧
+    lockView (gF3.st 1) = (some 9, 2, some 9, 2, 3, .prevote) ∧
+    lockView (gF3.st 2) = (some 9, 2, some 9, 2, 3, .prevote) ∧
+    GOkS N4d gF3 fixedRound3 ∧ GOkS N4d gF4 (staleRound 4 0 1 8 [0, 1, 2]) ∧
+    RoundReady N4d gF5 1 5 1 2 9 :=
+  ⟨by decide, by decide, by decide, by decide, by decide, by decide, by decide, by decide, by decide⟩
+
+/-- … and the synchronous round 5 decides: every correct node commits 9 (`sync_round_decides`
+applied to the state the repaired nodes reach) -/
+theorem stale_lock_released_decides :
+    GOkS N4d gF5 (syncRoundP N4d 1 5 1 2 9) ∧ allCommit N4d (grun N4d gF5 (syncRoundP N4d 1 5 1 2 9)) 1 9 := by
+  have wf : N4d.WF := ⟨fun _ => rfl, fun _ => rfl⟩
+  have c := stale_lock_released
+  have G3 := grun_inv_s wf _ _ (gstart_inv N4d) c.1
+  have G4 := grun_inv_s wf _ _ G3 c.2.2.2.2.2.2.1
+  have G5 := grun_inv_s wf _ _ G4 c.2.2.2.2.2.2.2.1
+  exact sync_round_decides N4d wf gF5 G5 1 5 1 2 9 c.2.2.2.2.2.2.2.2
+
+set_option maxRecDepth 100000 in
+/-- sanity evaluation of the same -/
+example : allCommit N4d (grun N4d gF5 (syncRoundP N4d 1 5 1 2 9)) 1 9 := by decide
 
 /-! ### the full statements -/
 
@@ -848,12 +928,12 @@ notion of time or fairness: from every reachable global state in which the corre
 hold more than 2/3 of the power and are at the same height `h`, SOME legal continuation in which
 only votes of correct validators are delivered (the faulty ones are silent from now on) lets every
 correct node commit at `h`.  `sync_round_decides` / `pol_round_decides` prove it from the states
-satisfying `RoundReady` / `PolReady`, `fresh_network_commits` from `gstart`.  For the state
-`gD3` of `stale_lock_livelock_counterexample` the statement is in all likelihood FALSE (A never
-releases its lock: no round-2 prevote can be added to its vote set any more and no later polka can
-form without A; B and C never release theirs: only a later polka could) — the counterexample shows
-four synchronous rounds, a proof that NO continuation decides would need an invariant over all
-executions from `gD3` and is not done. -/
+satisfying `RoundReady` / `PolReady`, `fresh_network_commits` from `gstart`.  Before the F36 fix it
+was in all likelihood false (`stale_lock_livelock_counterexample_old_rule`); with
+`stale_lock_never_persists` that obstruction is gone.  Still missing for a proof: a synchronous
+round from an ARBITRARY reachable state (mixed prevotes, nodes in different rounds/steps: only the
+boundary states `RoundReady` / `PolReady` are covered), and that the rotation reaches a proposer
+whose valid round dominates every conflicting lock (C12). -/
 def decidableFromEverywhereStatement : Prop :=
   ∀ (N : Net), N.WF → CorrectQuorum N →
     ∀ (steps : List GStep), GOkS N (gstart N) steps →
@@ -872,49 +952,170 @@ def NodeAtBoundary (cfg : Config) (h r : Nat) (σ : State) : Prop :=
 instance (cfg : Config) (h r : Nat) (σ : State) : Decidable (NodeAtBoundary cfg h r σ) := by
   unfold NodeAtBoundary; exact inferInstance
 
-/-- **unlucky_rounds_bounded, full statement (NOT proved; as "at most two rounds" it is FALSE:
-`two_sync_rounds_not_enough_counterexample`; with "the proposer whose valid round dominates" it
-still needs the exclusion of stale locks: `stale_lock_livelock_counterexample`).**  At a
-reachable round boundary whose correct proposer `p` re-proposes its valid block `b` of valid
-round `pol ≥ 1`, if every correct node is locked on nothing, on `b`, or on something from a round
-before `pol`, then `PolReady` holds with `qs` = the validators whose round-`pol` prevote for `b`
-is in `p`'s vote set — so `pol_round_decides` applies.  What is proved is `pol_round_decides`
-(from `PolReady`); what is missing / false: (i) a node may hold the polka of round `pol` and still
-be locked on another block from an earlier round (stale lock after a double round skip: then the
-conclusion is false); (ii) a node may hold a conflicting round-`pol` prevote of a FAULTY validator
-of `qs` (the Go code accepts the other one after `SetPeerMaj23`, a reactor call that is not part
-of `handleMsg` and not modelled); (iii) single-node invariants not proved here: `validRound = pol`
-implies +2/3 prevotes for `validB` at round `pol` in the own vote set; the vote sets of all rounds
-`≤ round + 1` exist; the proposal signed at round entry is `(validRound, validB)`. -/
+/-- the validators whose prevote for `b` is in `σ`'s round-`pol` prevote set -/
+def polkaSet (σ : State) (h pol b n : Nat) : List Nat :=
+  (List.range n).filter (fun q => (σ.slots .prevote h pol)[q]? == some (some (some b)))
+
+/-- the hypotheses of the bounded-rounds step about the round boundary: correct proposer `p` with
+valid block `b` of valid round `pol ≥ 1`; every correct node at the boundary of (h, r), locked on
+nothing, on `b`, or on something from a round before `pol` (the proposer's valid round dominates);
+no correct node holds a conflicting round-`pol` prevote of a FAULTY validator of `p`'s polka set
+(the Go code accepts the other one after `SetPeerMaj23`, a reactor call that is not modelled) -/
+def Dominated (N : Net) (g : GState) (h r p pol b : Nat) : Prop :=
+  1 ≤ pol ∧ p < N.powers.length ∧ N.F p = false ∧
+  (g.st p).validB = some ⟨b, true⟩ ∧ (g.st p).validRound = pol ∧
+  (∀ i, i < N.powers.length → N.F i = false →
+    (N.cfg i).proposer h r = p ∧ NodeAtBoundary (N.cfg i) h r (g.st i) ∧
+    ((g.st i).locked = none ∨ idIs (g.st i).locked b = true ∨ (g.st i).lockedRound < pol)) ∧
+  (∀ i q, i < N.powers.length → N.F i = false → N.F q = true →
+    q ∈ polkaSet (g.st p) h pol b N.powers.length →
+    ((g.st i).slots .prevote h pol)[q]? = some none ∨ ((g.st i).slots .prevote h pol)[q]? = some (some (some b)))
+
+/-- **unlucky_rounds_bounded, full statement** (proved: `unlucky_rounds_bounded`).  At a reachable
+round boundary whose correct proposer's valid round dominates every conflicting lock (`Dominated`),
+`PolReady` holds with `qs` = the proposer's polka set — so `pol_round_decides` applies: POL gossip
+and ONE synchronous round decide; with a proposer rotation that reaches such a proposer within `R`
+rounds (C12, not formalised here) this is the bounded-rounds clause.  ("At most two rounds" is
+false: `two_sync_rounds_not_enough_counterexample`.)  Before the F36 fix the statement was FALSE (a
+stale lock: `stale_lock_livelock_counterexample_old_rule`); that obstruction is removed by
+`stale_lock_never_persists`. -/
 def unluckyRoundsBoundedStatement : Prop :=
   ∀ (N : Net), N.WF → CorrectQuorum N →
     ∀ (steps : List GStep), GOkS N (gstart N) steps →
-      let g := grun N (gstart N) steps
-      ∀ h r p pol b, 1 ≤ pol → p < N.powers.length → N.F p = false →
-        (g.st p).validB = some ⟨b, true⟩ → (g.st p).validRound = pol →
-        (∀ i, i < N.powers.length → N.F i = false →
-          (N.cfg i).proposer h r = p ∧ NodeAtBoundary (N.cfg i) h r (g.st i) ∧
-          ((g.st i).locked = none ∨ idIs (g.st i).locked b = true ∨ (g.st i).lockedRound < pol)) →
-        PolReady N g h r p pol b
-          ((List.range N.powers.length).filter
-            (fun q => ((g.st p).slots .prevote h pol)[q]? == some (some (some b))))
+      ∀ h r p pol b, Dominated N (grun N (gstart N) steps) h r p pol b →
+        PolReady N (grun N (gstart N) steps) h r p pol b
+          (polkaSet ((grun N (gstart N) steps).st p) h pol b N.powers.length)
+
+/-- **unlucky_rounds_bounded (partial).**  From any state with the network invariant `GInv`: `Dominated`
+plus three facts — the proposer signed `(validRound, validB)` when it entered the round (`hprop`), its
+valid round carries the polka in its own vote set (`hpolka`), the vote sets of the POL round exist at
+every correct node (`hlen`); for reachable states they are the single-node invariants `Cs.Aux` — give
+`PolReady` for the proposer's polka set. -/
+theorem unlucky_rounds_bounded_partial (N : Net) (hq : CorrectQuorum N) (g : GState) (G : GInv N g)
+    (h r p pol b : Nat) (D : Dominated N g h r p pol b)
+    (hprop : Action.signProposal h r pol b ∈ (g.st p).log)
+    (hpolka : quorum N.powers (g.st p).votes .prevote h pol (some b))
+    (hlt : pol < r)
+    (hlen : ∀ i, i < N.powers.length → N.F i = false →
+      ((g.st i).slots .prevote h pol).length = N.powers.length) :
+    PolReady N g h r p pol b (polkaSet (g.st p) h pol b N.powers.length) := by
+  obtain ⟨hpol1, hp, hFp, _, _, hnode, hconf⟩ := D
+  have hmem : ∀ q, q ∈ polkaSet (g.st p) h pol b N.powers.length ↔
+      q < N.powers.length ∧ ((g.st p).slots .prevote h pol)[q]? = some (some (some b)) := by
+    intro q
+    unfold polkaSet
+    rw [List.mem_filter, List.mem_range]
+    simp
+  have hsigned : ∀ q, q ∈ polkaSet (g.st p) h pol b N.powers.length → N.F q = false →
+      Action.signVote .prevote h pol (some b) ∈ (g.st q).log := by
+    intro q hqm hF
+    obtain ⟨hql, hs⟩ := (hmem q).mp hqm
+    exact G.sent q h .prevote pol (some b) hF (G.recv p .prevote h pol q (some b) hql hs)
+  refine ⟨hq, hp, hFp, hprop, fun q hqm => ⟨((hmem q).mp hqm).1, hsigned q hqm⟩, ?_, ?_⟩
+  · have h1 := sumFor_le_power N.powers (slotsV (g.st p).votes .prevote h pol) (some b)
+      (fun j => decide (j ∈ polkaSet (g.st p) h pol b N.powers.length))
+      (fun i hi hs => by
+        simp only [decide_eq_true_eq]
+        exact (hmem i).mpr ⟨hi, hs⟩)
+    unfold quorum at hpolka
+    rw [total_eq_power] at hpolka
+    omega
+  · intro i hi hF
+    obtain ⟨hpi, ⟨nh, hh, hr, st, prop, pb, parts, pv, pc⟩, lk⟩ := hnode i hi hF
+    refine ⟨hpi, nh, hh, hr, st, prop, pb, parts, ⟨hpol1, hlt⟩, lk, ?_, pv, pc⟩
+    intro q hqm
+    have hql := ((hmem q).mp hqm).1
+    cases hFq : N.F q with
+    | true => exact hconf i q hi hF hFq hqm
+    | false =>
+      have hl := hlen i hi hF
+      cases hs : ((g.st i).slots .prevote h pol)[q]? with
+      | none =>
+        exfalso
+        rw [List.getElem?_eq_none_iff] at hs
+        omega
+      | some v =>
+        cases v with
+        | none => exact Or.inl rfl
+        | some x =>
+          right
+          have := correct_slot_ok G q h pol b hql hFq (hsigned q hqm hFq) i x hs
+          rw [this]
+
+/-- **unlucky_rounds_bounded.**  `unluckyRoundsBoundedStatement` holds: for every reachable state
+(legal execution from `gstart`) at a round boundary whose correct proposer's valid round dominates
+every conflicting lock, `PolReady` holds for the proposer's polka set.  The three extra hypotheses of
+`unlucky_rounds_bounded_partial` are discharged by the invariants `Cs.Aux` (`KV/Proofs/CsAux.lean`). -/
+theorem unlucky_rounds_bounded : unluckyRoundsBoundedStatement := by
+  intro N wf hq steps hok h r p pol b D
+  have G := grun_inv_s wf steps _ (gstart_inv N) hok
+  have hA := grun_aux_s wf steps hok
+  obtain ⟨hpol1, hp, hFp, hvb, hvr, hnode, hconf⟩ := D
+  obtain ⟨hpp, ⟨-, hh, hr, hst, -, -, -, hpv, -⟩, -⟩ := hnode p hp hFp
+  have hn : ∀ i, n (N.cfg i) = N.powers.length := fun i => by unfold n; rw [wf.powers_eq]
+  -- the proposer's valid round carries its polka
+  obtain ⟨-, v2, v3⟩ := (hA p).valid ⟨b, true⟩ hvb
+  rw [hvr, hh, wf.powers_eq] at v3
+  rw [hvr, hr] at v2
+  -- not the current round: its prevote set is empty
+  have hlt : pol < r := by
+    by_cases e : pol = r
+    · exfalso
+      subst e
+      unfold quorum at v3
+      rw [← State.slots_eq, hpv, sumFor_replicate_none] at v3
+      omega
+    · omega
+  have hprop : Action.signProposal h r pol b ∈ ((grun N (gstart N) steps).st p).log := by
+    have hval : isVal (N.cfg p) = true := by
+      unfold isVal; rw [wf.me_eq, wf.powers_eq]; exact decide_eq_true hp
+    rcases (hA p).prop hst hval (by rw [hh, hr, wf.me_eq]; exact hpp) ⟨b, true⟩ hvb with h1 | h1
+    · rw [hh, hr, hvr] at h1; exact h1
+    · rw [hvr, hr] at h1; omega
+  refine unlucky_rounds_bounded_partial N hq _ G h r p pol b ⟨hpol1, hp, hFp, hvb, hvr, hnode, hconf⟩
+    hprop v3 hlt ?_
+  intro i hi hF
+  obtain ⟨-, ⟨-, hhi, hri, -⟩, -⟩ := hnode i hi hF
+  have hex := (hA i).rounds pol hpol1 (by have := (hA i).hvs; omega)
+  rw [hhi] at hex
+  rw [State.slots_eq]
+  unfold slotsV
+  cases hf : findRV ((grun N (gstart N) steps).st i).votes h pol with
+  | none => rw [hf] at hex; cases hex
+  | some rv =>
+    simp only
+    have hm : rv ∈ ((grun N (gstart N) steps).st i).votes := List.mem_of_find?_eq_some hf
+    show rv.prevotes.length = _
+    rw [(hA i).lens rv hm, hn]
 
 set_option maxRecDepth 100000 in
-/-- `unluckyRoundsBoundedStatement` is false: the stale-lock state at the boundary of round 5
-satisfies all its hypotheses (proposer B, valid block 9 of valid round 2, A locked on 8 since
-round 1 < 2) but not `PolReady` -/
-theorem unluckyRoundsBoundedStatement_false : ¬ unluckyRoundsBoundedStatement := by
-  intro hst
-  have c := stale_lock_livelock_counterexample
-  have hok : GOkS N4d (gstart N4d)
-      (stalePrefix ++ staleRound3 ++ staleRound 4 0 1 8 [0, 1, 2]) := by
-    rw [goks_append, goks_append]
-    exact ⟨⟨c.2.2.2.1, c.2.2.2.2.1⟩, by rw [grun_append]; exact c.2.2.2.2.2.1⟩
-  have key := hst N4d c.1 c.2.1 _ hok 1 5 1 2 9 (by decide) (by decide) (by decide)
-  have hg : grun N4d (gstart N4d) (stalePrefix ++ staleRound3 ++ staleRound 4 0 1 8 [0, 1, 2]) = gD5 := by
-    rw [grun_append, grun_append]; rfl
-  simp only [hg] at key
-  have h1 := key (by decide) (by decide) (by decide)
-  exact absurd h1 (by decide)
+/-- non-vacuity of `Dominated`: the boundary of round 5 of `two_sync_rounds_not_enough_counterexample`
+(proposer A with valid block 9 of valid round 2; B locked on 8 since round 1; the faulty D's round-2
+prevote for 9 is in A's vote set only) -/
+example : Dominated N4u gU5 1 5 0 2 9 := by
+  refine ⟨by decide, by decide, by decide, by decide, by decide, by decide, ?_⟩
+  intro i q hi hF hFq _
+  have hq3 : q = 3 := by
+    have : (q == 3) = true := hFq
+    simpa using this
+  subst hq3
+  match i, hi, hF with
+  | 0, _, _ => decide
+  | 1, _, _ => decide
+  | 2, _, _ => decide
+  | 3, _, hF => cases hF
+
+/-- … so, from such a state, POL gossip and one synchronous round decide -/
+theorem unlucky_rounds_bounded_partial_decides (N : Net) (wf : N.WF) (hq : CorrectQuorum N) (g : GState)
+    (G : GInv N g) (hNS : ∀ i, NoStale (N.cfg i) (g.st i)) (h r p pol b : Nat) (D : Dominated N g h r p pol b)
+    (hprop : Action.signProposal h r pol b ∈ (g.st p).log)
+    (hpolka : quorum N.powers (g.st p).votes .prevote h pol (some b)) (hlt : pol < r)
+    (hlen : ∀ i, i < N.powers.length → N.F i = false →
+      ((g.st i).slots .prevote h pol).length = N.powers.length) :
+    ∀ i, i < N.powers.length → N.F i = false →
+      Action.commit h b ∈ ((grun N g (polGossip N h pol b (polkaSet (g.st p) h pol b N.powers.length) ++
+        syncRoundP N h r p pol b)).st i).log :=
+  (pol_round_decides N wf g G hNS h r p pol b _
+    (unlucky_rounds_bounded_partial N hq g G h r p pol b D hprop hpolka hlt hlen)).2
 
 end KV.Props.C04Net
